@@ -7,7 +7,9 @@ PROP = 'C16'
 def run():
     return run_proof_check(
         PROP, ['contracts.c16_request_ids'], ['ak.conn_http'], level='proof', harness='harness.c16',
-        bounded_rule="2 sequential runs plus threaded trials (3-9 threads x 60/200 requests through one connection and "
+        bounded_rule="every single-pre-emption schedule at line granularity: request A suspended before each line it executes in "
+                     "ak/conn_http.py while request B (same or derived connection) runs to completion - exhaustive for that family; "
+                     "2 sequential runs plus threaded trials (3-9 threads x 60/200 requests through one connection and "
                      "connections derived from it, switch interval 1e-6, stub opener): ids distinct, numbers gapless, caller id "
                      "kept; smoke complement only - interleavings are covered by the lock-invariant obligations, not sampled; "
                      "non-trivial = >= 2 threads",
